@@ -52,4 +52,16 @@ def quoteByte (c : Nat) : Str :=
   else [c]
 def goQuote (s : Str) : Str := b!"\"" ++ s.flatMap quoteByte ++ b!"\""
 
+theorem snoc_induction {α : Type} {motive : List α → Prop} (nil : motive [])
+    (snoc : ∀ l x, motive l → motive (l ++ [x])) : ∀ l, motive l := by
+  intro l
+  have : ∀ r : List α, motive r.reverse := by
+    intro r
+    induction r with
+    | nil => simpa using nil
+    | cons x xs ih => simpa using snoc _ x ih
+  simpa using this l.reverse
+
+
+
 end PSA
